@@ -1439,7 +1439,7 @@ class PriorityEncoder(Logic):
         r : list of Wire
             List of output wires representing the encoded priority.
         inc_priority : bool, optional
-            If True, the lowest index has the highest priority. If False, the highest index has the highest priority. Default is True.
+            If True, the highest index has the highest priority. If False, the lowest index has the highest priority. Default is True.
         """
         from ..helper import LogicHelper
         super().__init__(parent, name)
